@@ -71,6 +71,28 @@ def render_interrupted(E):
     flag0 = E.intr_logged
     filled0 = r.filled
     keys0 = set(r.keys())
+
+    def undo():
+        del r['actions'][n0:]
+        E.intr_logged = flag0
+        if not filled0:
+            for k in set(r.keys()) - keys0:
+                del r[k]
+            r.filled = False
+    # the driver may ask for the renderings in any order: every rotation must log the marker exactly once
+    for order in (('dump', 'json', 'report'), ('json', 'report', 'dump')):
+        try:
+            for f in order:
+                getattr(E, f)(True)
+            if len(r['actions']) != n0 + 1 or r['actions'][-1].get('msg') != INTR_LOG:
+                fails.append('marker-not-logged-exactly-once:%s-first' % order[0])
+        except core.PathAbort:
+            raise
+        except core.HarnessError:
+            raise
+        except Exception as ex:     # noqa
+            fails.append('%s:%s' % (order[0], type(ex).__name__))
+        undo()
     outs = {}
     for f in ('report', 'dump', 'json'):
         try:
@@ -108,12 +130,7 @@ def render_interrupted(E):
         if len(acts_now) != n0 + 1 or acts_now[-1].get('msg') != INTR_LOG:
             fails.append('record:interrupt-log')
     # undo the marker (the real interrupted process ends here; the virtual one goes on counting)
-    del r['actions'][n0:]
-    E.intr_logged = flag0
-    if not filled0:
-        for k in set(r.keys()) - keys0:
-            del r[k]
-        r.filled = False
+    undo()
     return fails
 
 
@@ -146,6 +163,97 @@ def trace_count(E, on_state):
     return len(seen)
 
 
+def check_interrupted_renderings(E, n0):
+    "pristine side: renderings of an interrupted election in rotated orders, each on a copy"
+    import copy
+    fails = []
+    for order in (('dump', 'json', 'report'), ('json', 'report', 'dump')):
+        E2 = copy.deepcopy(E)
+        try:
+            for f in order:
+                getattr(E2, f)(True)
+            a = E2.erecord['actions']
+            if len(a) != n0 + 1 or a[-1].get('msg') != INTR_LOG:
+                fails.append('marker-not-logged-exactly-once:%s-first' % order[0])
+        except Exception as ex:     # noqa
+            fails.append('%s:%s' % (order[0], type(ex).__name__))
+    return fails
+
+
+def sweep_real_interrupts(text, options, stride=1):
+    """pristine side: a real KeyboardInterrupt (raised from sys.settrace) at every stride-th package line event of
+    Election.count() on one concrete election; after each: the interrupt must have propagated, the three renderings must be
+    produced, marked once, and contain a prefix of the uninterrupted record"""
+    sys.path.insert(0, shims.REPO)
+    from droop.profile import ElectionProfile
+    from droop.election import Election
+    droop_dir = os.path.join(os.path.realpath(shims.REPO), 'droop') + os.sep
+    Ef = Election(ElectionProfile(data=text), dict(options))
+    nev = [0]
+
+    def counter(frame, event, arg):
+        if not frame.f_code.co_filename.startswith(droop_dir):
+            return None
+        if event == 'line':
+            nev[0] += 1
+        return counter
+    sys.settrace(counter)
+    try:
+        Ef.count()
+    finally:
+        sys.settrace(None)
+    total = nev[0]
+    full = json.loads(Ef.json())['actions']
+    fails = []
+    done = 0
+    for k in range(0, total, stride):
+        E = Election(ElectionProfile(data=text), dict(options))
+        n = [0]
+        fired = [False]
+
+        def tracer(frame, event, arg):
+            if not frame.f_code.co_filename.startswith(droop_dir):
+                return None
+            if event == 'line':
+                if n[0] == k and not fired[0]:
+                    fired[0] = True
+                    n[0] += 1
+                    raise KeyboardInterrupt
+                n[0] += 1
+            return tracer
+        sys.settrace(tracer)
+        interrupted = False
+        try:
+            E.count()
+        except KeyboardInterrupt:
+            interrupted = True
+        except Exception as ex:     # noqa
+            fails.append('event %d: count raised %s after the interrupt' % (k, type(ex).__name__))
+            continue
+        finally:
+            sys.settrace(None)
+        done += 1
+        if not interrupted:
+            fails.append('event %d of %d: the interrupt was swallowed, the count ran on' % (k, total))
+            continue
+        n0 = len(E.erecord['actions'])
+        f2 = check_interrupted_renderings(E, n0)
+        try:
+            rep, dmp, js = E.report(True), E.dump(True), E.json(True)
+            j = json.loads(js)['actions']
+            if INTR_REPORT not in rep or INTR_LOG not in dmp or j[-1]['msg'] != INTR_LOG:
+                f2.append('not marked')
+            if j[:-1] != full[:n0]:
+                f2.append('not a prefix of the uninterrupted record')
+        except Exception as ex:     # noqa
+            f2.append('rendering raised %s' % type(ex).__name__)
+        for x in f2:
+            fails.append('event %d of %d: %s' % (k, total, x))
+        if len(fails) > 5:
+            break
+    return dict(violated=bool(fails), detail=fails[:5], events=total, interrupts=done)
+
+
 def interrupt_replay(text, options, sig):
     "pristine side: raise a real KeyboardInterrupt at the first droop line event whose record state is `sig`"
     sys.path.insert(0, shims.REPO)
@@ -176,6 +284,7 @@ def interrupt_replay(text, options, sig):
     n0 = len(E.erecord['actions'])
     before = [(a['tag'], a['msg']) for a in E.erecord['actions']]
     fails = []
+    fails += check_interrupted_renderings(E, n0)
     outs = {}
     for f in ('report', 'dump', 'json'):
         try:
@@ -618,6 +727,22 @@ def run_job(spec):
     try:
         if spec['mode'] == 'interrupt':
             outcome = run_interrupt(spec, res, pristine, budget)
+        elif spec['mode'] == 'sweep':
+            shims.import_droop()
+            outcome = 'complete'
+            for text in spec['texts']:
+                kw = dict(text=text, options=election_options(spec), stride=int(spec.get('stride', 1)))
+                rep = pristine.ask(dict(kind='call', module='harness.miscrun', function='sweep_real_interrupts', kwargs=kw))
+                if 'error' in rep:
+                    res['harness_errors'].append(dict(why='sweep failed: %s' % rep['error'], tb=rep.get('tb')))
+                    continue
+                res['validated'] += rep.get('interrupts', 0)
+                res['reach']['real-interrupts'] = res['reach'].get('real-interrupts', 0) + rep.get('interrupts', 0)
+                res['stats']['paths'] = res['stats'].get('paths', 0) + 1
+                res['stats']['decisions'] = res['stats'].get('decisions', 0) + rep.get('events', 0)
+                if rep.get('violated'):
+                    res['violations'].append(dict(key='real-interrupt:%s' % (rep['detail'][0].split(': ', 1)[1] if rep['detail'] else '?'), input=kw, replay=rep,
+                                                  replay_module='harness.miscrun', replay_function='sweep_real_interrupts', replay_kwargs=kw))
         elif spec['mode'] == 'havoc':
             outcome = run_havoc(spec, res, pristine, budget)
         elif spec['mode'] == 'options':
